@@ -868,11 +868,18 @@ class XlsxRowWriter(AbstractRowWriter):
                 self.location,
             )
         for item in row_to_write:
-            if isinstance(item, str) and len(item) > _MAX_XLSX_ITEM_LENGTH:
-                raise errors.DataFormatError(
-                    "cannot write item to Excel worksheet: exceeds maximum of %d characters" % _MAX_XLSX_ITEM_LENGTH,
-                    self.location,
-                )
+            if isinstance(item, str):
+                if len(item) > _MAX_XLSX_ITEM_LENGTH:
+                    raise errors.DataFormatError(
+                        "cannot write item to Excel worksheet: exceeds maximum of %d characters"
+                        % _MAX_XLSX_ITEM_LENGTH,
+                        self.location,
+                    )
+                try:
+                    item.encode("utf-8")
+                except UnicodeEncodeError as error:
+                    # Otherwise the whole workbook would be lost when it is written during close().
+                    raise errors.DataFormatError("cannot write item to Excel worksheet: %s" % error, self.location)
         for item in row_to_write:
             assert item is not None
             assert not isinstance(item, bytes), "item must be a string: %r" % item
